@@ -113,6 +113,7 @@ func c04(r *Run) {
 	}
 
 	// ---- R4 hang-up after drain; R5 flush hand-off ----------------------------------------------------
+	r.borrow([]string{"C11.R6:interest-mask", "C11.R6:batch-dispatched"}, "C11.R6", "C04.R9", func() { c11(r) })
 	r.borrow([]string{"C11.R3:drain-before-hup", "C11.R3:drained-count-feeds-decision", "C11.R3:hup-verdict-has-reason"}, "C11.R3", "C04.R4", func() { c11(r) })
 	if w.Cfg.Name == "linux" || w.Cfg.Name == "darwin" {
 		r.borrow([]string{"C08.R2:signal-only-when-drained", "C08.R2:flush-return", "C08.R3:register-before-wait", "C08.R2:rw2r-order"}, "C08.R", "C04.R5.", func() { c08(r) })
